@@ -955,10 +955,8 @@ def _scatter(operand, indices, updates, dimension_numbers, combine, mode=None, *
   sd2od = tuple(dn.scatter_dims_to_operand_dims)
   obatch = tuple(getattr(dn, 'operand_batching_dims', ()))
   ibatch = tuple(getattr(dn, 'scatter_indices_batching_dims', ()))
-  if obatch or ibatch:
-    raise Unsupported('scatter batching dims')
   out = operand.copy()
-  window_src = [d for d in range(operand.ndim) if d not in iwd]
+  window_src = [d for d in range(operand.ndim) if d not in iwd and d not in obatch]
   scatter_pos = [d for d in range(updates.ndim) if d not in uwd]
   mode_s = str(mode).upper()
   clip = 'CLIP' in mode_s
@@ -970,6 +968,8 @@ def _scatter(operand, indices, updates, dimension_numbers, combine, mode=None, *
       full_off[d] = o
     tgt = list(full_off)
     symd = {}
+    for od, idd in zip(obatch, ibatch):
+      tgt[od] = sidx[idd]
     for k, d in enumerate(sd2od):
       s = indices[sidx + (k,)]
       if is_z(s):
@@ -1123,6 +1123,8 @@ class Interp:
       L = lifted()
       if _is_bits(L[0]) or _is_bits(L[1]):
         raise Unsupported('arithmetic on raw random bits')
+      if okind == 'b':
+        return [ew(B_or, *L)]
       return [ew(f_add, *L)]
     if p == 'sub':
       L = lifted()
